@@ -265,7 +265,10 @@ pub fn run(args: &Args, prefix: &str) -> i32 {
         }
         return 0;
     }
-    let per_cfg_cap = Duration::from_secs(if args.thorough { 600 } else { 15 });
+    // thorough: about 40 minutes in total, shared evenly (at least 20 s per configuration); a
+    // configuration that does not close within its share is reported in caps_hit with the depth
+    // that was fully explored
+    let per_cfg_cap = Duration::from_secs(if args.thorough { (2400 / configs.len().max(1) as u64).clamp(20, 600) } else { 15 });
     for (name, cfg, budget) in configs {
         let ecfg = ExploreCfg {
             max_depth: 60,
